@@ -83,12 +83,13 @@ Record cfg := mk_cfg {
                                         queues it as remote value once sent (as write_value does online) *)
   port_update_keeps_pending : bool;  (* _handle_port_update overlays the pending attributes (and skips a pending value) before
                                         replacing the attribute cache *)
-  device_update_keeps_pending : bool (* _handle_device_update overlays the pending attributes instead of popping them from the
+  device_update_keeps_pending : bool;(* _handle_device_update overlays the pending attributes instead of popping them from the
                                         dict it iterates, and so does fetch_and_update_device *)
+  offline_write_clears_queue : bool  (* SlavePort.write_value, offline branch, drops the remote values still queued *)
 }.
 
-Definition cfg_found : cfg := mk_cfg false false false.    (* the code as found (F5) *)
-Definition cfg_fixed : cfg := mk_cfg true true true.
+Definition cfg_found : cfg := mk_cfg false false false false.    (* the code as found (F5) *)
+Definition cfg_fixed : cfg := mk_cfg true true true true.
 
 (* ------------------------------------------------------------------------------------------------------------------ *)
 (* the mirror *)
